@@ -61,6 +61,28 @@ mutual
 end
 
 mutual
+  /-- `get_group(names)`: at every level the FIRST child group whose id matches; `None` when a name
+  is not found among the direct children -/
+  def getGroup : List String → DGrp → Option DGrp
+    | [], g => some g
+    | nm :: rest, .mk _ _ kids => getGroupKids nm rest kids
+  def getGroupKids (nm : String) (rest : List String) : List DGrp → Option DGrp
+    | [] => none
+    | k :: ks => if k.name = nm then getGroup rest k else getGroupKids nm rest ks
+end
+
+mutual
+  /-- `add_group({'id': nm}, parent)` with `parent` the group reached by `parentNames`: a new empty
+  group appended after the parent's children, whether or not a group of that name exists already -/
+  def rawGroup (nm : String) : List String → DGrp → DGrp
+    | [], .mk n ps kids => .mk n ps (kids ++ [.mk nm [] []])
+    | p :: rest, .mk n ps kids => .mk n ps (rawGroupKids nm p rest kids)
+  def rawGroupKids (nm p : String) (rest : List String) : List DGrp → List DGrp
+    | [] => []
+    | k :: ks => if k.name = p then rawGroup nm rest k :: ks else k :: rawGroupKids nm p rest ks
+end
+
+mutual
   /-- the flattening model's view of the document: every path is a shape of kind 0 (`'path'`) -/
   def toGrp : DGrp → Grp Unit
     | .mk _ ps kids => .mk 0 () (ps.map (fun p => { kind := 0, id := p, tf := () })) (toGrpList kids)
@@ -76,11 +98,30 @@ def docPaths (t : DGrp) : Option (List Nat) :=
 inductive Op where
   | addPath (names : List String) (pid : Nat)
   | addGroup (names : List String)
+  /-- `add_group({'id': nm}, parent=get_group(parent))`; `get_group` returning `None` means the root -/
+  | rawGroup (parent : List String) (nm : String)
+  /-- `paths_from_group(names)`: a query, the tree is unchanged -/
+  | query (names : List String)
   deriving Repr
 
 def applyOp (t : DGrp) : Op → DGrp
   | .addPath names pid => addPath pid names t
   | .addGroup names => addGroup names t
+  | .rawGroup parent nm => if (getGroup parent t).isSome then rawGroup nm parent t else rawGroup nm [] t
+  | .query _ => t
+
+/-- what `paths_from_group(names)` returns, as the set of path ids below the group (`[]` with a
+warning when the group does not exist) -/
+def queryGroup (names : List String) (t : DGrp) : List Nat :=
+  match getGroup names t with
+  | some g => allPaths g
+  | none => []
+
+/-- the answers of the queries of a history, in order -/
+def runQueries : DGrp → List Op → List (List Nat)
+  | _, [] => []
+  | t, .query names :: ops => queryGroup names t :: runQueries t ops
+  | t, op :: ops => runQueries (applyOp t op) ops
 
 def run (t : DGrp) (ops : List Op) : DGrp := ops.foldl applyOp t
 
